@@ -1,6 +1,5 @@
 """C33 — proposal discovery selects exactly the eligible requests, oldest first."""
 META = {
-    "disabled": True,
     "level": "model_checking",
     "text": "Deposit discovery, redemption discovery and the proposal generator's task dispatch are deterministic functions of the chain "
             "state they read (up to the order of equally old redemption requests). The TLA+ module Discovery enumerates event histories "
@@ -41,13 +40,32 @@ def par(jobs):
 
 def run(ctx):
     cfg = ctx.pick("Discovery", "Discovery_thorough")
-    mc, gen = par([
+    import os
+    base = open(os.path.join(os.path.dirname(__file__), "..", "..", SPEC, "Gen_%s.cfg" % cfg)).read()
+
+    def gen(label, kinds, filters):
+        # the generation is split into independent parts that run in parallel TLC processes
+        text = base.replace('GenKinds = {"deposits", "redemptions", "generate"}', "GenKinds = {%s}" % kinds)
+        text = text.replace('DepositFilters = {"this", "all"}', "DepositFilters = {%s}" % filters)
+        if text == base:
+            ctx.broken("cannot specialise Gen_%s.cfg" % cfg)
+        return lambda: ctx.tlc(SPEC, "Gen_Discovery", cfg_text=text, workers=1, label="Gen_" + label, dump_trace=False,
+                               timeout=3000, heap="4g")
+    res = par([
         lambda: ctx.tlc(SPEC, "MC_Discovery", cfg="MC_" + cfg, coverage=True, label="MC_Discovery", timeout=3000, workers=4),
-        lambda: ctx.tlc(SPEC, "Gen_Discovery", cfg="Gen_" + cfg, workers=1, label="Gen_Discovery", dump_trace=False, timeout=3000,
-                        heap="8g"),
+        gen("deposits_this", '"deposits"', '"this"'),
+        gen("deposits_all", '"deposits"', '"all"'),
+        gen("redemptions", '"redemptions"', '"this"'),
+        gen("generate", '"generate"', '"this"'),
     ])
+    mc = res[0]
     ctx.require_coverage(mc, ["FindDeposits", "FindRedemptions", "Generate"], "MC_Discovery")
-    cases = ctx.read_emitted(gen, "cases.ndjson")
+    cases = []
+    for g in res[1:]:
+        part = ctx.read_emitted(g, "cases.ndjson")
+        if not part:
+            ctx.broken("a generation part emitted no cases")
+        cases += part
     import re
     m = re.search(r"Finished computing initial states: (\d+) distinct", mc.out)
     init = int(m.group(1)) if m else 0
